@@ -426,10 +426,7 @@ def _chunked(it, data, p):
         body += data[p:p + size]
         p += size
         if p + 2 > n:
-            if data[p:p + 1] not in (b"", b"\r"):
-                it.body = bytes(body)
-                return it.refuse("chunk-terminator")
-            return incomplete()
+            return incomplete()   # judged when both terminator bytes are there
         if data[p:p + 2] != b"\r\n":
             it.body = bytes(body)
             return it.refuse("chunk-terminator")
